@@ -1,7 +1,7 @@
 (* C03 (xfab.tools) - every orientation parametrisation yields a proper rotation equal to the documented composition;
    Rodrigues maps invert.  Definitions tools_* are regenerated from /repo/xfab/tools.py on every run. *)
 From Coq Require Import Reals.
-From XV Require Import RealLib Mat3 Atan2 Gen_laue Gen_tools P03_laue P03_tools P03_euler.
+From XV Require Import RealLib Mat3 Atan2 Gen_laue Gen_tools P03_laue P03_tools P03_euler P03_band P03_gimbal.
 Open Scope R_scope.
 
 Theorem C03_tools_euler_is_RzRxRz : forall p1 P p2, tools_euler_to_u p1 P p2 = mmul (Rz p1) (mmul (Rx P) (Rz p2)).
@@ -67,3 +67,13 @@ Theorem C03_tools_euler_angles_recovered : forall p1 P p2, 0 <= p1 < 2 * PI -> 0
   not_gimbal U -> generic (m02 U) (- m12 U) -> generic (m20 U) (m21 U) -> tools_u_to_euler U = Some (mkV3 p1 P p2).
 Proof. exact tools_euler_of_angles. Qed.
 Print Assumptions C03_tools_euler_angles_recovered.
+
+(* u_to_euler on EVERY rotation, whatever branch the code takes (gimbal bands, snapped _arctan2 arguments, generic): it never raises and
+   every entry of euler_to_u(u_to_euler U) is within 1e-6 of U (mclose e A B: all nine |a_ij - b_ij| <= e) *)
+Theorem C03_tools_euler_never_raises_on_rotations : forall U, is_rot U -> exists e, tools_u_to_euler U = Some e.
+Proof. exact tools_euler_total. Qed.
+Print Assumptions C03_tools_euler_never_raises_on_rotations.
+Theorem C03_tools_euler_roundtrip_every_rotation : forall U e, is_rot U -> tools_u_to_euler U = Some e ->
+  mclose (1 / 1000000) (tools_euler_to_u (vx e) (vy e) (vz e)) U.
+Proof. exact tools_euler_roundtrip_all. Qed.
+Print Assumptions C03_tools_euler_roundtrip_every_rotation.
